@@ -236,7 +236,11 @@ Inductive hevent :=
 | HSpawnForeign (c id : nat)
 | HCall (t ro : nat)
 | HReturn (t : nat)
-| HExit (t : nat).
+| HExit (t : nat)
+| HGoexit (t : nat).   (* the goroutine ends INSIDE its interpreted frames: runtime.Goexit(), or a panic that unwinds to the
+                          function of the goroutine: all frames are abandoned and only deferred calls run.  Comp.Go defers
+                          tg2.glsDel(), so the registry protocol is the one of HExit (C33/ExitModel.v: with a plain call after
+                          funv.Call the entry would stay) *)
 
 Definition bindo {A B} (x : option A) (f : A -> option B) : option B :=
   match x with Some a => f a | None => None end.
@@ -247,7 +251,7 @@ Definition hstep (s : state) (h : hevent) : option state :=
   | HSpawnForeign c id => step s (ESpawnForeign c id)
   | HCall t ro => bindo (step s (ECall t ro)) (fun s' => run_thread 20 s' t)
   | HReturn t => step s (EReturn t)
-  | HExit t => bindo (step s (EFinish t)) (fun s' => run_thread 20 s' t)
+  | HExit t | HGoexit t => bindo (step s (EFinish t)) (fun s' => run_thread 20 s' t)
   end.
 
 Fixpoint hrun (s : state) (hs : list hevent) : option state :=
